@@ -147,6 +147,7 @@ type wireBatch struct {
 	Sigs    []uint64       `json:"sigs"` // signatures of non-trivial runs
 	Faults  map[string]int `json:"faults"`
 	Probes  map[string]int `json:"probes"`
+	Maxes   map[string]int64 `json:"maxes"`
 	SimNs   int64          `json:"simns"`
 	Steps   int64          `json:"steps"`
 	Samples []wireSample   `json:"samples"`
@@ -204,7 +205,7 @@ func WorkerMain(propID string, seed uint64) int {
 		}
 		from, _ := strconv.Atoi(f[0])
 		to, _ := strconv.Atoi(f[1])
-		b := wireBatch{Faults: map[string]int{}, Probes: map[string]int{}}
+		b := wireBatch{Faults: map[string]int{}, Probes: map[string]int{}, Maxes: map[string]int64{}}
 		for idx := from; idx < to; idx++ {
 			fmt.Fprintf(out, "B %d\n", idx)
 			out.Flush()
@@ -222,6 +223,11 @@ func WorkerMain(propID string, seed uint64) int {
 			}
 			for k, v := range r.Probes {
 				b.Probes[k] += v
+			}
+			for k, v := range r.Maxes {
+				if cur, ok := b.Maxes[k]; !ok || v > cur {
+					b.Maxes[k] = v
+				}
 			}
 			if r.NonTriv {
 				b.NonTriv++
